@@ -368,6 +368,16 @@ def _work(task):
     return acc
 
 
+
+def _disturb_task(_):
+    from ..explore import disturb
+
+    acc = Acc()
+    acc.count("disturbance_rounds", 7)
+    for core, detail in disturb.differential('term-analysis-answers', disturb.predicate_battery):
+        acc.violation(core, {"disturb": True}, detail)
+    return acc
+
 def run(tier, seed):
     nt = 3 if tier == "quick" else 4
     ms = []
@@ -391,6 +401,7 @@ def run(tier, seed):
     tasks = tasks[k:] + tasks[:k]
     acc = merge_all(par.pmap(_work, tasks))
     total = acc.n["multisets"] + acc.n["triples"] + acc.n["pairs"] + acc.n["factor_tables"] + acc.n["predicate_trees"]
+    acc.merge(par.run_fresh(_disturb_task, None))  # differential: a fixed battery before / after unrelated calls
     cov = {
         "evaluations": total,
         "distinct_nontrivial": acc.n["nontrivial"] + acc.n["predicate_trees"],
@@ -408,6 +419,9 @@ def run(tier, seed):
 
 
 def replay(case):
+    if isinstance(case, dict) and case.get("disturb"):
+        from ..explore import disturb
+        return disturb.differential('term-analysis-answers', disturb.predicate_battery)
     k = case["kind"]
     if k == "multiset":
         res, _ = check_like_invariance(tuple(case["terms"]))
